@@ -24,6 +24,8 @@ D1 ==
         q \in {<<2, 3>>, <<2, 4>>, <<3, 5>>, <<3, 6>>, <<3, 8>>, <<4, 7>>, <<4, 8>>, <<5, 10>>, <<5, 12>>, <<6, 12>>, <<7, 14>>, <<7, 16>>}} \cup
     {Node("Radix4", 4 * b, <<4>>, <<Leaf(b)>>) : b \in {1, 2, 3, 4, 5}} \cup
     {Node("Radix4", 16 * b, <<4, 4>>, <<Leaf(b)>>) : b \in {1, 3, 5}} \cup
+    {Node("Radix3", 3 * b, <<3>>, <<Leaf(b)>>) : b \in {1, 2, 3, 4, 5}} \cup
+    {Node("Radix3", 9 * b, <<3, 3>>, <<Leaf(b)>>) : b \in {1, 2, 4, 5}} \cup
     {Node("RadixN", SeqProduct(f) * b, f, <<Leaf(b)>>) :
         f \in {<<2>>, <<3>>, <<5>>, <<2, 3>>, <<3, 2>>, <<5, 2>>, <<2, 2, 3>>, <<7, 2>>, <<4, 3>>, <<6, 5>>, <<3, 4, 2>>, <<7, 6>>, <<2, 4>>, <<5, 3, 2>>},
         b \in {1, 2, 3}}
